@@ -324,6 +324,73 @@ def gen_unrelated_classes_new_keys(rng, k):
                 opcode=True, opcode_files=HELPER_FILES, plans=('helper-opcode',))
 
 
+def gen_v1_alias_first_use(rng, k):
+    """v1 class whose fields carry Alias / AliasPath / Annotated[.., Alias] settings (required and defaulted, load-only,
+    several load names): two threads make the very first use concurrently (two loads, or a load and a dump), every document
+    presents every aliased key, so a function generated from a half-filled alias table shows in the result.  Schedules:
+    a pre-emption at EVERY line event inside class_helper.py (the per-class set-up loops: one partial state per field), not
+    only at the first / last occurrence of a line.  (Kept out: two AliasPath fields under one top-level key —
+    findings/v1-aliaspath-shared-top-key-count.py; an absent required path — findings/required-path-absent-parse-error.py.)"""
+    used = set()
+    names = [_fname(rng, used) for _ in range(6)]
+    req, dfl = [], []
+    docs = [{}, {}, {}]
+    ctor = []
+    # (kind, required?)
+    mode = ['load-load', 'load-dump'][k % 2]
+    shapes = [('plain', True), ('alias', True), ('alias', False), ('ann', False), ('path', False), ('loadonly', False)]
+    if mode == 'load-dump':
+        # an AliasPath field + first dump during the first load: KeyError out of the dump on the unchanged library
+        # (findings/v1-aliaspath-first-dump-during-first-load.py) — kept out until it is decided
+        shapes = [x for x in shapes if x[0] != 'path'] + [('alias', False)]
+    rng.shuffle(shapes)
+    if rng.random() < 0.5:
+        shapes.append(('alias2', False))
+        names.append(_fname(rng, used))
+    for i, ((kind, required), n) in enumerate(zip(shapes, names)):
+        key = _spell(rng, n).replace(' ', '') + str(i)
+        if kind == 'plain':
+            line, keys = f'    {n}: int', [n]
+        elif kind == 'alias':
+            line = f'    {n}: int = Alias({key!r})' if required else f'    {n}: int = Alias({key!r}, default={i})'
+            keys = [key]
+        elif kind == 'alias2':
+            line, keys = f'    {n}: int = Alias({key!r}, {key.upper()!r}, default={i})', [key, key.upper()]
+        elif kind == 'ann':
+            line, keys = f'    {n}: Annotated[int, Alias({key!r})] = {i}', [key]
+        elif kind == 'loadonly':
+            line, keys = f'    {n}: int = Alias(load={key!r}, default={i})', [key]
+        else:
+            line, keys = f'    {n}: int = AliasPath("top_{i}.{key}", default={i})', None
+        (req if required else dfl).append(line)
+        for j, d in enumerate(docs):
+            v = 10 * (j + 1) + i
+            if keys is None:
+                d[f'top_{i}'] = {key: v}
+            else:
+                d[keys[j % len(keys)]] = v if (i + j) % 2 else str(v)
+        if required:
+            ctor.append(str(i + 1))
+    case = rng.choice([None, 'AUTO', 'CAMEL', 'SNAKE'])
+    if case in ('CAMEL',):
+        for d in docs:
+            for (kind, _r), n in zip(shapes, names):
+                if kind == 'plain':
+                    ws = n.split('_')
+                    d[ws[0] + ''.join(w.title() for w in ws[1:])] = d.pop(n)
+    meta = '        v1 = True\n' + (f'        v1_key_case = {case!r}\n' if case else '')
+    src = PRELUDE + 'from dataclass_wizard.v1 import Alias, AliasPath\n'
+    src += f'\n@dataclass\nclass V(JSONWizard):\n    class _(JSONWizard.Meta):\n{meta}' + '\n'.join(req + dfl) + '\n'
+    t0 = f'V.from_dict({docs[0]!r})' if rng.random() < 0.5 else f'fromdict(V, {docs[0]!r})'
+    t1 = f'fromdict(V, {docs[1]!r})' if mode == 'load-load' else f'V({", ".join(ctor)}).to_dict()'
+    threads = [t0, t1]
+    if rng.random() < 0.5:
+        threads.reverse()
+    post = [f'V.from_dict({docs[2]!r})', f'asdict(V({", ".join(ctor)}))']
+    return dict(name=f'v1-alias-first-use-{mode}', site=None, nfields=0, src=src, threads=threads, post=post,
+                plans=('setup-lines', 'multi'), n_multi=20)
+
+
 def _job(item):
     scn, plan, opcode, record = item
     return sched.run_case_in_child(scn, plan, opcode=opcode, record=record)
@@ -387,7 +454,8 @@ def table_plans(first_logs, nthr, rng, quick, cap):
     return plans
 
 
-FAMILIES = [(gen_auto_tag_dump_vs_load, 2, 9), (gen_unrelated_classes_new_keys, 3, 12)]
+FAMILIES = [(gen_auto_tag_dump_vs_load, 2, 9), (gen_unrelated_classes_new_keys, 3, 12),
+            (gen_v1_alias_first_use, 2, 8)]
 
 
 def run(ctx: C.Ctx):
@@ -439,6 +507,16 @@ def run(ctx: C.Ctx):
             others = [t for t in range(nthr) if t != a]
             for k in switch_points(first_log, quick):
                 plans.append(('single', [(a, k)] + [(t, sched.INF) for t in others] + [(a, sched.INF)], False))
+        if 'setup-lines' in kinds:
+            # every line event of the per-class set-up code (class_helper.py) of the thread that runs first, and the event after
+            for a in range(nthr):
+                others = [t for t in range(nthr) if t != a]
+                ks = set()
+                for i, ev in enumerate(first_logs[a]):
+                    if ev[0] == 'class_helper.py':
+                        ks.update((i + 1, i + 2))
+                for k in sorted(x for x in ks if 1 <= x <= len(first_logs[a])):
+                    plans.append(('setup-lines', [(a, k)] + [(t, sched.INF) for t in others] + [(a, sched.INF)], False))
         if 'tables' in kinds:
             plans += table_plans(first_logs, nthr, rng, quick, ctx.quick(600, 20000))
         n_double = ctx.quick(60, 600) if 'multi' in kinds else 0
